@@ -870,17 +870,19 @@ package genetics
 
 // ---- C09 / C02: rounding fix-up and removal of species without offspring ------------------------------------
 // What is proved: whenever the function's own tally of the quotas falls short of the number of organisms, the quotas afterwards total at
-// least that number (the single make-up offspring, or the whole population to the best species when even that falls short), and no species
+// least that number thanks to the single make-up offspring, or, when even that falls short, the best species gets the whole population and
+// every other species zero; and no species
 // with a zero quota stays in the list. That the floor-with-carry total never exceeds the number of organisms (so that nothing needs
 // fixing in the other case) is real arithmetic over the partition of the organisms into species and is not proved here.
 //@ func (*Population).purgeZeroOffspringSpecies
 //@   props C09 C02
-//@   uses sumFI_update memberAt sumFI_zero
+//@   uses sumFI_update memberAt
 //@   mode nosafety
 //@   ufarith
 //@   assume_pre countOffspring
 //@   requires p != nil && len(p.Organisms) > 0 && len(p.Species) > 0 && distinctRefs(p.Species) && (forall i :: 0 <= i && i < len(p.Species) ==> p.Species[i] != nil)
-//@   ensures_local [madeUp] totalExpected < totalOrganisms ==> sumField(old(p.Species), heapOf(Species.ExpectedOffspring)) >= totalOrganisms
+//@   ensures_local [madeUp] totalExpected < totalOrganisms && finalExpected >= totalOrganisms ==> sumField(old(p.Species), heapOf(Species.ExpectedOffspring)) >= totalOrganisms
+//@   ensures_local [allToBest] totalExpected < totalOrganisms && finalExpected < totalOrganisms ==> bestSpecies != nil && bestSpecies.ExpectedOffspring == totalOrganisms && (forall i :: 0 <= i && i < old(len(p.Species)) && old(p.Species[i]) != bestSpecies ==> old(p.Species[i]).ExpectedOffspring == 0)
 //@   ensures [noZero] forall i :: 0 <= i && i < len(p.Species) ==> p.Species[i] != nil && p.Species[i].ExpectedOffspring > 0
 //@   loop 1:
 //@     invariant -1 <= #idx
@@ -900,5 +902,5 @@ package genetics
 //@     invariant [zeroed] forall i :: 0 <= i && i <= #idx ==> p.Species[i].ExpectedOffspring == 0
 //@   loop 6:
 //@     invariant -1 <= #idx && sameSlice(p.Species, old(p.Species)) && unchanged(p.Species) && fresh(speciesToKeep)
-//@     invariant [total] totalOrganisms == len(p.Organisms) && (totalExpected < totalOrganisms ==> sumField(p.Species, heapOf(Species.ExpectedOffspring)) >= totalOrganisms)
+//@     invariant [total] totalOrganisms == len(p.Organisms) && (totalExpected < totalOrganisms && finalExpected >= totalOrganisms ==> sumField(p.Species, heapOf(Species.ExpectedOffspring)) >= totalOrganisms) && (totalExpected < totalOrganisms && finalExpected < totalOrganisms ==> bestSpecies != nil && bestSpecies.ExpectedOffspring == totalOrganisms && (forall i :: 0 <= i && i < len(p.Species) && p.Species[i] != bestSpecies ==> p.Species[i].ExpectedOffspring == 0))
 //@     invariant [kept] forall i :: 0 <= i && i < len(speciesToKeep) ==> speciesToKeep[i] != nil && speciesToKeep[i].ExpectedOffspring > 0
